@@ -72,7 +72,8 @@ var (
 
 // ---- case ------------------------------------------------------------------------------------------------
 
-// Stages: "dial" (TCP connection only), "half" (first Cut bytes of CONNECT), "est" (CONNECT, CONNACK received),
+// Stages: "dial" (TCP connection only; reached when the broker has started a handler for it), "half" (likewise, plus the
+// first Cut bytes of CONNECT), "est" (CONNECT, CONNACK received),
 // "sub" (est + SUBSCRIBE c36/# acknowledged), "midpub" (est + first Cut bytes of a PUBLISH), "pump" (est + QoS 0
 // PUBLISHes to c36/p written back to back until the connection ends), "gone-dial" / "gone-est" (the client closes its
 // own connection after reaching dial / est), "window" (dial made by the harness from inside closeListenerClients).
@@ -454,6 +455,23 @@ func (c *cli) sleepOrStop(d time.Duration) bool {
 	}
 }
 
+// waitHandler waits until the broker has started a handler for this connection (it was accepted and is being served).
+func (c *cli) waitHandler() bool {
+	for i := 0; i < 10000; i++ {
+		if exists, _, _ := c.run.tr.handlerOf(c.local); exists {
+			return true
+		}
+		select {
+		case <-c.endedCh:
+			return false
+		case <-c.run.stop:
+			return false
+		case <-time.After(200 * time.Microsecond):
+		}
+	}
+	return false
+}
+
 func (c *cli) script() {
 	defer c.run.scripts.Done()
 	defer c.scriptDone.Store(true)
@@ -493,8 +511,11 @@ func (c *cli) script() {
 		return
 	}
 	switch c.spec.Stage {
-	case "dial", "window":
+	case "window":
 		c.markReached(true)
+		return
+	case "dial":
+		c.markReached(c.waitHandler())
 		return
 	case "gone-dial":
 		c.closeSelf(false)
@@ -505,7 +526,7 @@ func (c *cli) script() {
 		c.unacked = true
 		c.mu.Unlock()
 		_, err := conn.Write(cut(c.connectBytes(), c.spec.Cut))
-		c.markReached(err == nil)
+		c.markReached(c.waitHandler() && err == nil)
 		return
 	}
 	// all other stages complete the CONNECT
@@ -565,6 +586,10 @@ func (c *cli) script() {
 			}
 			if i%8 == 7 {
 				runtime.Gosched()
+				// a pump only has to be busy while Close() runs; afterwards it falls silent like every other client
+				if at := c.run.closeAt.Load(); at != 0 && time.Now().UnixNano()-at > int64(300*time.Millisecond) {
+					return
+				}
 			}
 		}
 	}
@@ -582,7 +607,8 @@ type c36Run struct {
 	clis      []*cli
 	cmu       sync.Mutex // guards appends to clis (window dials)
 	reachedCh chan int
-	tClose    time.Time // taken just before Close() is called
+	tClose    time.Time    // taken just before Close() is called
+	closeAt   atomic.Int64 // the same as UnixNano, for the pump scripts
 	stop      chan struct{}
 	scripts   sync.WaitGroup
 }
@@ -971,6 +997,7 @@ func c36Check(c c36Case, r *evid.Rec) (discs []evid.Disc) {
 	closeDone := make(chan struct{})
 	tClose := time.Now()
 	run.tClose = tClose
+	run.closeAt.Store(tClose.UnixNano())
 	run.tr.markCloseCalled()
 	go func() {
 		_ = run.srv.Close()
@@ -1561,11 +1588,12 @@ func c36Gen(r *evid.Rec) func(t *rapid.T) c36Case {
 func c36Witnesses() map[string]c36Case {
 	est := func(v int) c36Client { return c36Client{Stage: "est", Ver: v} }
 	return map[string]c36Case{
-		sigHangPre:          {Class: "idle-preconnect", CloseAfter: 3, Clients: []c36Client{est(5), est(4), {Stage: "dial", Ver: 4}}},
+		sigHangPre:          {Class: "idle-preconnect", CloseAfter: 3, CloseDelayUs: 20000, Clients: []c36Client{est(5), est(4), {Stage: "dial", Ver: 4}}},
 		sigHangEst:          {Class: "late-establish", CloseAfter: 3, Release: "closing", Clients: []c36Client{est(5), est(4), {Stage: "est", Ver: 5, Park: "attach.afterLimitCheck"}}},
 		sigLiveHandler:      {Class: "park-start", CloseAfter: 3, Release: "returned", Clients: []c36Client{est(5), est(4), {Stage: "est", Ver: 5, Park: "attach.start"}}},
 		sigLateHandler:      {Class: "park-start", CloseAfter: 3, Release: "returned", Clients: []c36Client{est(5), est(4), {Stage: "gone-est", Ver: 5, Park: "attach.start"}}},
 		sigNoDisconnectBusy: {Class: "free", CloseAfter: 3, CloseDelayUs: 6000, ImpatientMs: 60, Clients: []c36Client{{Stage: "sub", Ver: 5}, {Stage: "sub", Ver: 5}, {Stage: "pump", Ver: 4, StartUs: 2000, Cut: 100}}},
+		sigDeadlock:         {Class: "lock-pressure", CloseAfter: 3, Pressure: 6, Clients: []c36Client{est(5), est(4), {Stage: "gone-est", Ver: 5}}},
 		sigOpenUnserved:     {Class: "dial-in-close", CloseAfter: 2, WindowDials: 2, HoldUs: 20000, Clients: []c36Client{est(5), est(4)}},
 	}
 }
